@@ -78,7 +78,7 @@ def strategy(ctx, shard=0):
 
 
 def budget(ctx):
-    return dict(max_examples=ctx.pick(1200, 14400), shards=24)
+    return dict(max_examples=ctx.pick(1200, 60000), shards=24)
 
 
 def warmup():
